@@ -1,6 +1,6 @@
-from . import evaluate, numeric, structure, reduce, symbolic, wrappers, frame, ordering, history
+from . import evaluate, numeric, structure, reduce, symbolic, wrappers, frame, ordering, history, gfam
 
-MODULES = [evaluate, numeric, structure, reduce, symbolic, wrappers, frame, ordering, history]
+MODULES = [evaluate, numeric, structure, reduce, symbolic, wrappers, frame, ordering, history, gfam]
 
 
 def all_specs(prog, tier):
